@@ -289,4 +289,16 @@ theorem relink_spec (m : Mem) (a : Nat) (ys : List Nat) (hnd : (a :: ys).Nodup) 
       rw [i2 x (fun hm => hx (by simp [hm]))]
       exact upd_other _ _ _ _ (fun e => hx (by simp [e]))
 
+theorem lastOr_eq_getLast? (a : Nat) (xs : List Nat) : xs.getLast? = if xs = [] then none else some (lastOr a xs) := by
+  induction xs generalizing a with
+  | nil => simp
+  | cons x xs ih =>
+    simp only [lastOr_cons]
+    cases xs with
+    | nil => simp
+    | cons y ys =>
+      have := ih x
+      simp only [List.getLast?_cons_cons] at this ⊢
+      simpa using this
+
 end Cstl.SList
